@@ -347,3 +347,15 @@ Definition clean (s : cam) : Prop :=
 (* operation j is the first one the plan fails *)
 Definition first_fail (plc : nat -> bool) (j : nat) : Prop :=
   plc j = true /\ forall k, (k < j)%nat -> plc k = false.
+
+(* One session with every single failure point, for the correspondence: the failure-free run, then
+   for every call i and every operation j < (operations the failure-free run of call i attempts) the
+   run under the plan {(i, j)}; each output is followed by the separator -9. *)
+Definition cam_family (fx : bool) (calls : list Z) : list Z :=
+  let cs := map call_of_Z calls in
+  let base := run fx no_failure cs in
+  (cam_case fx calls [] ++ [-9]) ++
+  concat (map (fun ir : nat * callres =>
+                 concat (map (fun j => cam_case fx calls [Z.of_nat (fst ir); Z.of_nat j] ++ [-9])
+                             (seq 0 (r_nops (snd ir)))))
+              (combine (seq 0 (length base)) base)).
